@@ -221,9 +221,10 @@ def native_range(mn, mx, st):
 def replay(r):
     if 'files' in r['name'] or 'spec' in r['name']:
         for etas in ('0.5,3', '1,10,inf', '0.5,1,3,10,30,100,inf'):
-            why = native_generate(etas, '3x3,5x5', '0.1:0.2:0.05')
-            if why:
-                return dict(confirmed=True, input=dict(eta=etas, sizes='3x3,5x5', prob='0.1:0.2:0.05'), detail=why)
+            for sizes in ('3x3,5x4x2,7', '3x3,5x5', '2x3x4,4x3x2'):          # the first one is the size list of the deductive obligation
+                why = native_generate(etas, sizes, '0.1:0.2:0.05')
+                if why:
+                    return dict(confirmed=True, input=dict(eta=etas, sizes=sizes, prob='0.1:0.2:0.05'), detail=why)
         return dict(confirmed=False, detail='generate-input writes one readable specification per bias ratio for the tried inputs')
     if 'direction' in r['name']:
         from panqec.utils import get_direction_from_bias_ratio
@@ -252,7 +253,7 @@ def bounded(tier, seed):
     rnd = random.Random(seed)
     ev, nt, viol, samples = 0, set(), [], []
     for etas in ['0.5', '0.5,3', '1,10,inf', '0.5,1,3,10,30,100,inf', '2.5,inf']:
-        for sizes in ['3x3', '3x3,5x5,7x7', '2x3,4']:
+        for sizes in ['3x3', '3x3,5x5,7x7', '2x3,4', '3x3,5x4x2,7', '2x3x4,4x3x2,2x2x3']:
             for prob in ['0.1', '0.1:0.2:0.01', '0.05,0.1']:
                 for bias, defo in (('Z', None), ('X', 'XZZX')):
                     if tier == 'quick' and rnd.random() < 0.5:
@@ -277,5 +278,5 @@ def bounded(tier, seed):
     for v in viol:
         if v['obligation'] not in seen:
             seen.add(v['obligation']); out.append(v)
-    return dict(bound='generate-input over 5 eta lists x 3 size lists x 3 rate specs x 2 (bias, deformation); min:max:step on the decimal grid min,max in {0,...,1} (16 values), step in {0.001,0.005,0.01,0.05,0.1}%s' % (' (300 sampled)' if tier == 'quick' else ''),
+    return dict(bound='generate-input over 5 eta lists x 5 size lists (1-, 2- and 3-component sizes, unequal extents in every position) x 3 rate specs x 2 (bias, deformation); min:max:step on the decimal grid min,max in {0,...,1} (16 values), step in {0.001,0.005,0.01,0.05,0.1}%s' % (' (300 sampled)' if tier == 'quick' else ''),
                 evaluations=ev, distinct_nontrivial=len(nt), rule='real CLI command, files read back through expand_input_ranges; exact decimal oracle for the progression', samples=samples, violations=out)
